@@ -36,6 +36,9 @@ def cases(tier):
         for strat in ("filter", "fixedinterval", "fixedpoint"):
             out.append(f"interp/{ssm}/{strat}/none/ts0/o1q1d1/damp_zero")
             out.append(f"interp_at/{ssm}/{strat}/none/ts0/o1q1d1/damp_zero")
+        out.append(f"interp/{ssm}/filter/dynamic/ts0/o1q1d1/damp_zero")
+        out.append(f"interp_at/{ssm}/filter/dynamic/ts0/o1q1d1/damp_zero")
+    out.append("interp/blockdiag/fixedpoint/dynamic/ts0/o1q1d2/damp_zero")
     for ctrl in ("i",):
         out.append(f"sets/{ctrl}/noclip/o2i2")
         out.append(f"chain/{ctrl}/noclip/o2i2")
@@ -94,6 +97,11 @@ def build_interp(key, at_t1=False):
         def cat(m, P):
             return np.concatenate([m, P.reshape(-1)])
         t0 = sc.sc(orc.arr(i0["t"]))
+        dyn = cfg.calib.startswith("dynamic")
+        if dyn:
+            # (t0, t1] belongs to the right end point: reported and used scale are interp_to's
+            res["reported output scale = interp_to's"] = (orc.arr(sol.output_scale), orc.arr(i1["output_scale"]))
+            res["step_from keeps interp_to's scale"] = (orc.arr(step_from.output_scale), orc.arr(i1["output_scale"]))
         if at_t1:
             # the checkpoint coincides (up to eps) with the step end: report interp_to, continue from it
             res["sol.t"] = (orc.arr(sol.t), orc.arr(st1.t))
@@ -114,6 +122,13 @@ def build_interp(key, at_t1=False):
             return res
         Aa, Qa, _ = sc.transition_dense(orc, cfg, ha, A, Q)
         Ab, Qb, _ = sc.transition_dense(orc, cfg, hb, A, Q)
+        if dyn:
+            sg = orc.arr(i1["output_scale"])
+            if sg.ndim:
+                s2 = np.tile(sg, cfg.n)
+                Qa = s2[:, None] * Qa * s2[None, :]; Qb = s2[:, None] * Qb * s2[None, :]
+            else:
+                Qa = Qa * (sg[()] * sg[()]); Qb = Qb * (sg[()] * sg[()])
         mt = Aa.dot(m0)
         Pt = orc.name(Aa.dot(P0).dot(Aa.T) + Qa, "Pt")
         res["sol.t"] = (orc.arr(sol.t), orc.arr(tmid))
